@@ -17,7 +17,7 @@ def sh(cmd, cwd=None, timeout=600, env=None):
 
 
 def main():
-    d = os.path.abspath(sys.argv[1])
+    d = os.path.abspath([a for a in sys.argv[1:] if not a.startswith('--')][0])
     checks = None
     if '--checks' in sys.argv:
         checks = sys.argv[sys.argv.index('--checks') + 1].split(',')
@@ -54,7 +54,7 @@ def main():
     print(json.dumps(res, indent=1))
     fired = {}
     if ok:
-        cmd = [os.path.join(HERE, 'tools', 'seedrun.py'), patch] + (checks or [])
+        cmd = [os.path.join(HERE, 'tools', 'seedrun.py')] + (['--in-repo'] if '--in-repo' in sys.argv else []) + [patch] + (checks or [])
         rc, out = sh(cmd, cwd=HERE, timeout=3000)
         for line in out.splitlines():
             parts = line.split()
@@ -67,7 +67,7 @@ def main():
         'git worktree of /repo HEAD under /tmp (removed afterwards)', 'git apply patch.diff',
         'timeout 600 /venv/bin/python -m pytest -q -p no:cacheprovider --timeout=60  (176 passed required)',
         'PYTHONPATH=<wt>/python /venv/bin/python demo.py on the patched tree (must exit non-zero) and on the clean tree (must print PASS, exit 0)',
-        'tools/seedrun.py patch.diff  (apply in /repo, run registered quick checks, git checkout -- .)'], 'result': res, 'checks': fired}
+        'tools/seedrun.py [--in-repo] patch.diff  (apply the patch, run the registered quick checks against it, undo)'], 'result': res, 'checks': fired}
     json.dump(meta, open(meta_p, 'w'), indent=1)
     return 0 if ok else 1
 
